@@ -53,6 +53,15 @@ define flow lookup
 
 define user request lookup
   "look it up"
+
+define user ask var
+  "tell me the value"
+
+define flow answer from variable
+  user ask var
+  # Generate a short answer for the user.
+  $answer = ...
+  bot $answer
 """
 
 
